@@ -593,6 +593,102 @@ theorem splitComponents_runs (poly1 poly2 : Array (V2 K)) (runs : List (List (Em
   rw [key runs hr []]
   simp
 
+/-- the stream is empty or ends with the end-of-component marker -/
+def EndsFin (tr : List (Emit K)) : Prop := tr = [] ∨ ∃ t, tr = t ++ [Emit.fin]
+
+private theorem walkStep_closed (I : List (IPoint K)) (l1 l2 : Nat) (st : Walk K) (r : Walk K × WalkEnd)
+    (h : walkStep I l1 l2 st = .inr r) (hc : r.2 = .closed) : ∃ t, r.1.trace = t ++ [Emit.fin] := by
+  unfold walkStep at h
+  simp only at h
+  split at h
+  · split at h
+    · cases h; cases hc
+    · split_ifs at h
+      · cases h; exact ⟨_, rfl⟩
+      · split at h <;> cases h
+  · split at h <;> cases h
+
+private theorem walk_closed (I : List (IPoint K)) (l1 l2 : Nat) :
+    ∀ (fuel : Nat) (st : Walk K), (walk I l1 l2 fuel st).2 = .closed → ∃ t, (walk I l1 l2 fuel st).1.trace = t ++ [Emit.fin]
+  | 0, st, h => by simp [walk] at h
+  | fuel + 1, st, h => by
+    simp only [walk] at h ⊢
+    cases hs : walkStep I l1 l2 st with
+    | inl st' => rw [hs] at h; exact walk_closed I l1 l2 fuel st' h
+    | inr r => rw [hs] at h; exact walkStep_closed I l1 l2 st r hs h
+
+private theorem outerLoop_endsFin (poly1 poly2 : Array (V2 K)) (eps : K) (I : List (IPoint K)) :
+    ∀ (l : List (IPoint K)) (s : List Nat × List (Emit K)), EndsFin s.2 →
+      (outerLoop poly1 poly2 eps I l s).2 = none → EndsFin (outerLoop poly1 poly2 eps I l s).1.2
+  | [], s, h, _ => by simpa [outerLoop] using h
+  | ip :: rest, (vis, tr), h, hn => by
+    unfold outerLoop at hn ⊢
+    split_ifs at hn ⊢ with hv
+    · exact outerLoop_endsFin poly1 poly2 eps I rest _ h hn
+    · simp only at hn ⊢
+      split at hn
+      · rename_i hcl
+        exact outerLoop_endsFin poly1 poly2 eps I rest _ (Or.inr (walk_closed I _ _ _ _ hcl)) hn
+      · simp at hn
+
+/-- a stream that is empty or ends with the marker is a concatenation of marker-free runs, each followed by the marker -/
+private theorem endsFin_runs : ∀ (n : Nat) (tr : List (Emit K)), tr.length ≤ n → EndsFin tr →
+    ∃ runs : List (List (Emit K)), (∀ r ∈ runs, ∀ e ∈ r, e ≠ Emit.fin) ∧ tr = runs.flatMap fun r => r ++ [Emit.fin] := by
+  intro n
+  induction n with
+  | zero =>
+    intro tr hl _
+    have : tr = [] := List.length_eq_zero_iff.mp (by omega)
+    exact ⟨[], by simp, by simp [this]⟩
+  | succ n ih =>
+    intro tr hl h
+    rcases h with rfl | ⟨t, ht⟩
+    · exact ⟨[], by simp, by simp⟩
+    · -- split at the first marker
+      have hf : Emit.fin ∈ tr := by rw [ht]; simp
+      obtain ⟨u, w, hs, hu⟩ := List.eq_append_cons_of_mem hf
+      have hw : EndsFin w := by
+        rcases List.eq_nil_or_concat w with rfl | ⟨L, b, rfl⟩
+        · exact Or.inl rfl
+        · right
+          have e : (u ++ Emit.fin :: L) ++ [b] = t ++ [Emit.fin] := by
+            rw [← ht, hs]; simp
+          have := List.append_inj' e rfl
+          exact ⟨L, by rw [List.singleton_inj.mp this.2, List.concat_eq_append]⟩
+      obtain ⟨runs, hr, he⟩ := ih w (by rw [hs] at hl; simp at hl; omega) hw
+      refine ⟨u :: runs, ?_, ?_⟩
+      · intro r hr' e he'
+        rcases List.mem_cons.mp hr' with rfl | h1
+        · intro hc; exact hu (hc ▸ he')
+        · exact hr r h1 e he'
+      · rw [hs, List.flatMap_cons, ← he]; simp
+
+/-- **each connected component is emitted once, as one polygon** (every scalar type, every iteration order of the hash map,
+every input).  When `polygons_intersection` returns `Ok`, the stream handed to `out` is a concatenation of marker-free runs,
+each closed by exactly one `(None, None)` marker — and `polygons_intersection_points` (the `mem::take` accumulator) returns
+exactly the non-empty runs, each once, point by point.  With `components_all_visited` (every intersection point occurs in
+the stream exactly once) no component is lost, repeated or merged with another. -/
+theorem polygons_intersection_points_components (order : List Nat) (poly1 poly2 : Array (V2 K))
+    (hok : (polygonsIntersectionOrd order poly1 poly2).status = .ok) :
+    ∃ runs : List (List (Emit K)), (∀ r ∈ runs, ∀ e ∈ r, e ≠ Emit.fin) ∧
+      (polygonsIntersectionOrd order poly1 poly2).trace = runs.flatMap (fun r => r ++ [Emit.fin]) ∧
+      splitComponents poly1 poly2 (polygonsIntersectionOrd order poly1 poly2).trace =
+        (runs.filter fun r => !r.isEmpty).map fun r => r.map (emitPt poly1 poly2) := by
+  have hE : EndsFin (polygonsIntersectionOrd order poly1 poly2).trace := by
+    unfold polygonsIntersectionOrd at hok ⊢
+    simp only at hok ⊢
+    split at hok
+    · simp at hok
+    · simp at hok
+    · rename_i hnone
+      have h0 := outerLoop_endsFin poly1 poly2 defaultCollinearityEps (intersections poly1 poly2 defaultCollinearityEps)
+        _ ([], []) (Or.inl rfl) hnone
+      split_ifs at hok ⊢ <;> first
+        | exact h0
+        | exact Or.inr ⟨_, rfl⟩
+  obtain ⟨runs, hr, he⟩ := endsFin_runs _ _ (le_refl _) hE
+  exact ⟨runs, hr, he, by rw [he]; exact splitComponents_runs poly1 poly2 runs hr⟩
+
 end split
 
 /-! ## kernel-evaluated instances: non-vacuity, and two seeded variants refuted
